@@ -575,6 +575,8 @@ def run(chk) -> None:
 
     chk.robust |= {"stack-roles", "stack-skips", "stack-extra-filter", "stack-offset-vector", "stack-direction", "centroid-register", "model-filter", "same-residue-identity"}
     store = "pairs"
+    chk.robust |= {"structure-state"}
+    c04e.check_structure_state(chk, fi)
     try:
         sites = c03e.build_sites(fi, loop, repo)
         if "residue" not in sites.maps.values():
